@@ -19,3 +19,27 @@ Definition run_filter (t : dslc pyval) (doc : pyval) : res pyval :=
   let* d := mk_data doc in
   let* f := filter_tree T res0 c d in
   Ok (obs_filter d f).
+
+Definition first_result (o : pyval) : res pyval :=
+  match o with VTuple (VList (b :: _) :: _) => Ok b | _ => Err IndexError end.
+Definition all_result (o : pyval) : pyval :=
+  match o with
+  | VTuple (VList r :: _) => VBool (forallb (fun b => match b with VBool true => true | _ => false end) r)
+  | _ => VNone
+  end.
+
+(* cond.test(datum) *)
+Definition run_test (t : dslc pyval) (datum : pyval) : res pyval :=
+  let* c := build T idlit t in
+  let kind := match c with CLeaf l => l_kind l | _ => DValue end in
+  match kind with
+  | DIndex => Err NotImplementedError
+  | DKey =>
+      let* n := py_len datum in
+      if py_eq n (VInt 1) then let* o := run_filter t datum in first_result o else Err TypeError
+  | DValue => let* o := run_filter t (VList [datum]) in first_result o
+  end.
+
+(* cond.test_all(doc) *)
+Definition run_test_all (t : dslc pyval) (doc : pyval) : res pyval :=
+  let* o := run_filter t doc in Ok (all_result o).
